@@ -12,6 +12,10 @@ CLAUSE = ("(RF-PAIR) every page reference a library function obtains (_vbi_cache
           "capacity assertion; the in-place reuse of an old page's memory is dominated by 'exactly one victim of exactly the "
           "needed size'; a referenced victim is made a zombie, never queued for deletion; vbi_chsw_reset releases the old network "
           "before it takes the new one into vbi->cn.")
+CLAUSE = CLAUSE + (" (RF-CORR) the per-network count of referenced pages moves with the page's own count: every path that takes a "
+                   "page's ref_count from 1 to 0 decrements n_referenced_pages (zombie pages included), every path that sets it to 1 or "
+                   "raises it from 0 increments it; vbi_chsw_reset resets the per-page statistics (vbi_teletext_channel_switched) only "
+                   "after vbi->cn has been replaced, never on the network whose pages are still stored.")
 NOT_DECIDED = ("map semantics (lookup returns the most recent version), memory-limit arithmetic, exactness of the per-network "
                "statistics, distinctness of death_row entries across the two eviction passes.")
 
@@ -31,6 +35,7 @@ def run(ctx, run):
     _free_guards(ctx, run)
     _put_page(ctx, run, P.need("_vbi_cache_put_page", "src/cache.c"))
     _chsw(ctx, run, P.need("vbi_chsw_reset", "src/vbi.c"))
+    _ref_counters(ctx, run)
 
 
 def _pairing(ctx, run, what, acq, rel, hint, movers, floor):
@@ -313,3 +318,85 @@ def _chsw(ctx, run, f):
     else:
         run.violation("RF-DOM", key, "vbi->cn is overwritten with a new network without releasing the old one first: the old "
                       "station's pages stay cached and referenced", ex.loc(f, i))
+
+
+def _is_field(f, node, rec, fld):
+    l = f.exprs[ex.skip(f, node)]
+    return l["k"] == "mem" and l.get("in") == rec and l["member"] == fld
+
+
+def _ref_counters(ctx, run):
+    """RF-CORR: cache_page.ref_count 0 <-> 1 transitions are mirrored in cache_network.n_referenced_pages."""
+    P = ctx.prog
+    n = 0
+    dec = lambda f, i: f.exprs[i]["k"] == "un" and f.exprs[i]["op"] == "--" and _is_field(f, f.exprs[i]["c"][0], "cache_network", "n_referenced_pages") \
+        or (f.exprs[i]["k"] == "asg" and f.exprs[i]["op"] == "-=" and _is_field(f, f.exprs[i]["c"][0], "cache_network", "n_referenced_pages"))
+    inc = lambda f, i: f.exprs[i]["k"] == "un" and f.exprs[i]["op"] == "++" and _is_field(f, f.exprs[i]["c"][0], "cache_network", "n_referenced_pages") \
+        or (f.exprs[i]["k"] == "asg" and f.exprs[i]["op"] == "+=" and _is_field(f, f.exprs[i]["c"][0], "cache_network", "n_referenced_pages"))
+    for f in P.funcs:
+        if f.file != "src/cache.c":
+            continue
+        for bid, i in flow.all_events(f):
+            e = f.exprs[i]
+            if e["k"] == "asg" and e["op"] == "=" and _is_field(f, e["c"][0], "cache_page", "ref_count"):
+                c = ex.const(f, e["c"][1])
+                if c == 0:
+                    # initialisation of a fresh page is not a release
+                    if not any(a.cmp_const("==", "cache_page.ref_count", 1) for a in atoms.atoms_at(f, i)):
+                        continue
+                    n += 1
+                    run.touch(f)
+                    ok, _ = atoms.must_pass(f, i, dec)
+                    key = "RF-CORR:%s:last-unref-decrements-network" % f.name
+                    if ok:
+                        run.holds("RF-CORR", key, "after `%s` (last reference gone) every path to the exit executes "
+                                  "--cn->n_referenced_pages" % ex.pretty(f, i), ex.loc(f, i))
+                    else:
+                        run.violation("RF-CORR", key, "a path from `%s` (the page's last reference is released) reaches the exit without "
+                                      "--cn->n_referenced_pages: the network keeps counting a referenced page, is never recycled or "
+                                      "deleted, and its pages survive the channel switch" % ex.pretty(f, i), ex.loc(f, i),
+                                      witness={"function": f.name})
+                elif c == 1:
+                    n += 1
+                    run.touch(f)
+                    ok, _ = atoms.must_pass(f, i, inc)
+                    before = any(inc(f, j) for b2, j in flow.all_events(f) if flow.dominates(f, b2, bid) and j != i)
+                    key = "RF-CORR:%s:first-ref-increments-network" % f.name
+                    if ok or before:
+                        run.holds("RF-CORR", key, "`%s` is accompanied by ++cn->n_referenced_pages on every path" % ex.pretty(f, i), ex.loc(f, i))
+                    else:
+                        run.violation("RF-CORR", key, "`%s` hands out the first reference of a page without ++cn->n_referenced_pages: the "
+                                      "network can be recycled while the page is held" % ex.pretty(f, i), ex.loc(f, i))
+            if e["k"] == "un" and e["op"] == "++" and _is_field(f, e["c"][0], "cache_page", "ref_count"):
+                n += 1
+                run.touch(f)
+                found = False
+                for b2, j in flow.all_events(f):
+                    if inc(f, j) and any(a.cmp_const("==", "cache_page.ref_count", 0) for a in atoms.atoms_at(f, j)) \
+                            and bid in flow.reach_from(f, b2):
+                        found = True
+                key = "RF-CORR:%s:ref-from-zero-increments-network" % f.name
+                if found:
+                    run.holds("RF-CORR", key, "++n_referenced_pages under `0 == cp->ref_count` precedes `%s`" % ex.pretty(f, i), ex.loc(f, i))
+                else:
+                    run.violation("RF-CORR", key, "`%s` can raise a page from 0 references without ++cn->n_referenced_pages under "
+                                  "`0 == cp->ref_count`" % ex.pretty(f, i), ex.loc(f, i))
+    run.floor("ref_count 0<->1 transition sites in cache.c", n, 3)
+    # channel switch order: the statistics reset acts on the new network
+    f = P.need("vbi_chsw_reset", "src/vbi.c")
+    run.touch(f)
+    swap = [i for b, i in flow.all_events(f) if f.exprs[i]["k"] == "asg" and _is_field(f, f.exprs[i]["c"][0], "vbi_decoder", "cn")]
+    resets = [i for b, i in flow.all_events(f) if f.exprs[i]["k"] == "call" and f.exprs[i].get("callee") == "vbi_teletext_channel_switched"]
+    if not swap or not resets:
+        raise AnalysisBroken("vbi_chsw_reset: network swap / vbi_teletext_channel_switched call not found")
+    for r in resets:
+        key = "RF-DOM:vbi_chsw_reset:stat-reset-after-swap"
+        rb = flow.elem_pos(f)[r][0]
+        ok = all(flow.dominates(f, flow.elem_pos(f)[sw][0], rb) and (flow.elem_pos(f)[sw][0] != rb or flow.elem_pos(f)[sw][1] < flow.elem_pos(f)[r][1])
+                 for sw in swap)
+        if ok:
+            run.holds("RF-DOM", key, "vbi_teletext_channel_switched() runs after vbi->cn was replaced", ex.loc(f, r))
+        else:
+            run.violation("RF-DOM", key, "vbi_teletext_channel_switched() clears the per-page statistics of vbi->cn before the network "
+                          "is replaced: the old network's pages are still stored, their removal then decrements the zeroed subpage "
+                          "counters below zero and the recycled network carries the corrupt counters", ex.loc(f, r))
